@@ -243,6 +243,14 @@ def features(term, value, env, tags='EXPLICIT', ext_implied=False, codec='per', 
                             nopt = sum(1 for m in a.members if m.q in ('O', 'D'))
                             if w.nbits() == nopt and not any(w.buf) and not w.acc:
                                 feats.add('group-zero-width')
+                            elif ext_implied:
+                                # the same under the unasserted rule that EXTENSIBILITY IMPLIED does not reach
+                                # ENUMERATED (no implied extension bit inside the group)
+                                plain = ref_per.Ctx(env, tags, False, aligned, numeric, ref_per.Policy())
+                                w2 = ref_per.Writer(aligned)
+                                ref_per.enc_components(list(a.members), v, w2, plain, 'group')
+                                if w2.nbits() == nopt and not any(w2.buf) and not w2.acc:
+                                    feats.add('group-zero-width')
                         except Exception:
                             pass
                 elif a.name in v:
